@@ -130,34 +130,55 @@ pub fn base_frames(tier: Tier) -> Vec<Frame> {
     f
 }
 
-/// (configuration index, entry) for every configuration: all single edits over the full op
-/// alphabet; all double edits over the reduced (quick) / full (thorough) alphabet for the
-/// configurations selected by `pair_cfg`.
-pub fn neighbourhood(tier: Tier, cfgs: &[CfgD]) -> Vec<(usize, EntryD)> {
-    let full = op_alphabet(true);
-    let second = op_alphabet(tier == Tier::Thorough);
-    let first_for_pairs = op_alphabet(false);
+/// One unit of neighbourhood work: a base entry under a configuration.
+pub struct Seed {
+    pub ci: usize,
+    pub base: EntryD,
+    /// also enumerate all double edits
+    pub pairs: bool,
+}
+
+/// Seeds for every configuration x base frame x base value set. Double edits are enumerated for
+/// the configurations without sampling that are plain or have exactly two default dimension sets.
+pub fn seeds(tier: Tier, cfgs: &[CfgD]) -> Vec<Seed> {
     let mut out = Vec::new();
     for (ci, cfg) in cfgs.iter().enumerate() {
-        let pair_cfg = cfg.mult == Mult::None
+        let pairs = cfg.mult == Mult::None
             && (cfg.is_plain() && cfg.default_dims.len() == 1
                 || cfg.default_dims.len() == 2 && cfg.namespaces.len() <= 2);
         for frame in base_frames(tier) {
             for values in base_value_sets() {
-                let base = build_entry(cfg, frame, values);
-                out.push((ci, base.clone()));
-                for e1 in edits_of(&base, &full) {
-                    out.push((ci, e1));
-                }
-                if pair_cfg {
-                    for e1 in edits_of(&base, &first_for_pairs) {
-                        for e2 in edits_of(&e1, &second) {
-                            out.push((ci, e2));
-                        }
-                    }
-                }
+                out.push(Seed {
+                    ci,
+                    base: build_entry(cfg, frame, values),
+                    pairs,
+                });
             }
         }
     }
     out
+}
+
+/// Calls `f` on the base entry, on all its single edits over the full op alphabet and (if
+/// `seed.pairs`) on all double edits: first edit over the reduced alphabet, second over the
+/// reduced (quick) / full (thorough) alphabet. Returns the number of entries visited.
+pub fn for_each_neighbour(seed: &Seed, tier: Tier, mut f: impl FnMut(&EntryD)) -> u64 {
+    let full = op_alphabet(true);
+    let mut n = 1;
+    f(&seed.base);
+    for e1 in edits_of(&seed.base, &full) {
+        f(&e1);
+        n += 1;
+    }
+    if seed.pairs {
+        let first = op_alphabet(false);
+        let second = op_alphabet(tier == Tier::Thorough);
+        for e1 in edits_of(&seed.base, &first) {
+            for e2 in edits_of(&e1, &second) {
+                f(&e2);
+                n += 1;
+            }
+        }
+    }
+    n
 }
